@@ -193,6 +193,8 @@ static inline void* fiber_unbounded_channel_receive(
   while (!(ret = mpsc_fifo_trypop(&channel->queue))) {
     if (channel->ready_signal) {
       fiber_signal_wait(channel->ready_signal);
+    } else {
+      fiber_yield();
     }
   }
   return ret;
@@ -256,6 +258,8 @@ static inline void* fiber_unbounded_sp_channel_receive(
   while (!(ret = spsc_fifo_trypop(&channel->queue))) {
     if (channel->ready_signal) {
       fiber_signal_wait(channel->ready_signal);
+    } else {
+      fiber_yield();
     }
   }
   return ret;
